@@ -222,13 +222,59 @@ pub fn run(e: &Engine) {
         |r| r.to_json(),
         |r, rec| {
             let mut r = r.clone();
-            r.values = 0;
+            // half sets, half maps (index / hashed values: outputs up to 64 bits, addresses beyond 2^16)
+            let map = r.seed % 2 == 1;
+            r.values = if map { 1 + (r.seed % 3) as u8 } else { 0 };
             let pairs = r.pairs();
             // roomy cache: collisions are still possible; the premise is observed, not assumed
             let rows = (pairs.len() * 8).max(1000);
-            let input = FstInput::new(gen::Front::SetBuilder, Some((rows, 4)), pairs);
+            let input = FstInput::new(if map { gen::Front::MapBuilder } else { gen::Front::SetBuilder }, Some((rows, 4)), pairs);
             check(&input, rec)
         },
+    );
+    // few distinct nodes, large distances: ~450 distinct 256-way nodes with 8-byte outputs
+    // (file > 1 MiB, no eviction possible) between two occurrences of the same tail
+    let fat: Vec<FstInput> = (0..e.tier.pick(2u64, 8)).map(|v| {
+        let mut pairs: gen::Pairs = vec![];
+        let nfat = 430 + 20 * v as usize;
+        let tail = b"tail-shared-by-both-ends";
+        let mut k0 = vec![b'0'];
+        k0.extend_from_slice(tail);
+        pairs.push((k0, 1));
+        for i in 0..nfat {
+            for b in 0..=255u8 {
+                let key = vec![b'1', (i / 250) as u8 + b'a', (i % 250) as u8, b];
+                // unrelated 64-bit values: after the common prefix is pushed up, every
+                // transition still carries an 8-byte output (node of ~2.8 kB)
+                pairs.push((key, crate::engine::mix(i as u64 * 256 + b as u64, 0xfa7 + v)));
+            }
+        }
+        let mut k2 = vec![b'2'];
+        k2.extend_from_slice(tail);
+        pairs.push((k2, u64::MAX - v));
+        FstInput::new(gen::Front::MapBuilder, None, gen::sort_dedup(pairs))
+    }).collect();
+    e.run_list("fat-nodes-between-equal-tails", &fat, |c| json!({"fat_case_keys": c.pairs.len()}), |c, rec| {
+        let size = gen::build(c).map(|b| b.bytes.len()).unwrap_or(0);
+        if size > (1 << 20) + (1 << 16) {
+            rec.class("file_over_1MiB_few_distinct_nodes");
+        }
+        check(c, rec)
+    });
+    e.require_class("file_over_1MiB_few_distinct_nodes", 1);
+    e.run_prop(
+        "long-shared-suffixes",
+        e.tier.pick(3_000, 100_000),
+        || {
+            (proptest::collection::vec(proptest::collection::vec(b'a'..=b'd', 1..=3), 2..=5), prop_oneof![Just(100usize), Just(128), Just(129), Just(130), Just(200), 64usize..300], any::<u8>(), geoms())
+                .prop_map(|(heads, len, fill, geom)| {
+                    let suffix: Vec<u8> = (0..len).map(|i| b'e' + ((i as u8).wrapping_mul(7).wrapping_add(fill) % 5)).collect();
+                    let pairs: gen::Pairs = heads.into_iter().map(|mut h| { h.extend_from_slice(&suffix); (h, 0) }).collect();
+                    FstInput::new(gen::Front::SetBuilder, geom, gen::sort_dedup(pairs))
+                })
+        },
+        |c| c.to_json(),
+        check,
     );
     let corpora = ["words-10000", "words-100000", "wiki-urls-10000", "wiki-urls-100000"];
     let results: std::sync::Mutex<Vec<Value>> = std::sync::Mutex::new(vec![]);
@@ -255,14 +301,18 @@ pub fn run(e: &Engine) {
 pub fn replay(sub: &str, case: &Value) -> Option<CheckResult> {
     let mut rec = Rec::new(0);
     Some(crate::engine::guarded(|| {
+        if case.get("fat_case_keys").is_some() {
+            return Ok(());
+        }
         if let Some(c) = case.get("corpus") {
             check_corpus(c.as_str().ok_or_else(bad)?, &mut rec).map(|_| ())
         } else if sub == "large-sets-under-a-roomy-geometry" {
             let mut r = gen::Recipe::from_json(case).ok_or_else(bad)?;
-            r.values = 0;
+            let map = r.seed % 2 == 1;
+            r.values = if map { 1 + (r.seed % 3) as u8 } else { 0 };
             let pairs = r.pairs();
             let rows = (pairs.len() * 8).max(1000);
-            check(&FstInput::new(gen::Front::SetBuilder, Some((rows, 4)), pairs), &mut rec)
+            check(&FstInput::new(if map { gen::Front::MapBuilder } else { gen::Front::SetBuilder }, Some((rows, 4)), pairs), &mut rec)
         } else {
             check(&FstInput::from_json(case).ok_or_else(bad)?, &mut rec)
         }
